@@ -206,6 +206,11 @@ def quant_genexp(eng, gen, st, universal):
             i = fresh("qi")
             xs = [i]
             dom = z3.And(i >= 0, i < seq.n)
+            idm = seq.meta.get("idmark") if isinstance(seq, SeqV) else None
+            if idm is not None:
+                # idmark(i) >= 0 is a consequence of the (global) axiom on the trigger-only function idmark:
+                # the conjunct changes nothing, but gives the quantifier over the element index a trigger
+                dom = z3.And(dom, idm(i) >= 0)
             val = seq.at(i)
         s3.pc.append(dom)
         eng.assign(g.target, val, s3)
